@@ -456,6 +456,7 @@ func buildEvidence(prop, tier string, seed int64, hs []*Harness, rs []*HarnessRe
 		"load_s":                        loadT.Seconds(),
 		"bounds":                        boundsText[prop],
 		"outside_bounds":                outsideText[prop],
+		"exhaustive":                    exhaustiveProp[prop] && aborts == 0 && unknown == 0 && nviol == 0,
 	}
 	return map[string]interface{}{
 		"property_id": prop,
